@@ -924,6 +924,13 @@ func (c *CEnv) callExpr(e *CE, hint *Value) Value {
 		}
 		comp := c.x.comp(c.heap(), a.Loc.Prefix, c.x.compSortFor(lf[0].Sort, len(a.Loc.Elems)+1))
 		return Value{K: KScalar, X: nestedSelect(comp, a.Loc.indices())}
+	case "arr":
+		// the backing array (reference) of a slice: arr(a) == arr(b) says they share storage
+		a := c.eval(e.Args[0])
+		if a.K != KSlice {
+			c.fail("arr() of non-slice")
+		}
+		return Value{K: KScalar, X: a.Loc.Root}
 	case "off":
 		a := c.eval(e.Args[0])
 		if a.K == KString {
